@@ -374,6 +374,18 @@ Fixpoint csp_inner (q : quirks) (s : space) (xr xi yr yi : elem) {struct s} : ou
       else bind (collect4 (csp_inner q) cs xrs xis yrs yis) (fun zs => Ok (cps_inner_comb w zs))
   | _, _, _, _, _ => ShapeErr
   end.
+
+(* norm and dist of complex elements: |z| entry-wise on the leaves (np.abs / nrm2 of complex data),
+   then the real code paths: |r z| = r |z| for the non-negative boundary factors, <x,x> = sum w |z|^2 *)
+Fixpoint emod (xr xi : elem) {struct xr} : elem :=
+  match xr, xi with
+  | ELeaf a, ELeaf b => ELeaf (map (nroot 2) (c_abs2 a b))
+  | ENode xs, ENode ys => ENode (zip_with emod xs ys)
+  | _, _ => ENode []
+  end.
+Definition csp_norm (q : quirks) (s : space) (xr xi : elem) : outcome T := sp_norm q s (emod xr xi).
+Definition csp_dist (q : quirks) (s : space) (xr xi yr yi : elem) : outcome T :=
+  let m := emod (esub xr yr) (esub xi yi) in sp_dist q s m (escal nzero m).
 End M.
 
 (* ------------------------------------------------------------------ *)
